@@ -244,7 +244,7 @@ def run_g1(ctx: Ctx) -> None:
 # ------------------------------------------------------------------------------- G2
 INJECT = ["dup_type_struct", "dup_type_enum", "dup_field", "dup_binding", "dup_enumerator_name", "dup_enumerator_value",
           "unknown_service", "can_unknown_struct", "dup_can_id", "wide_can_message", "second_struct", "same_id_other_protocol",
-          "dup_binding_via_alias", "same_name_other_protocol"]
+          "dup_binding_via_alias", "same_name_other_protocol", "wide_can_message_name_collision"]
 
 
 @st.composite
@@ -305,6 +305,10 @@ def g2_case(draw):
             st_ = structs[k % len(structs)]
             s.decls.append(M.Impl("spi", st_.name, "SameNameQ", [("id", 940)]))
             s.decls.append(M.Impl("i2c", st_.name, "SameNameQ", [("id", 941)]))
+        elif tw == "wide_can_message_name_collision":
+            # 72 bits, but only 40 when sizes are summed per (colliding) leaf name
+            s.decls.append(M.Struct("WideCq", [M.Field("spd", 0, M.Arr(M.U(32), 2)), M.Field("spd_1", 1, M.U(1 + k % 8))]))
+            s.decls.append(M.Impl("can", "WideCq", None, [("id", 961)]))
         elif tw == "second_struct":
             s.decls.append(M.Struct("SecondQ", [M.Field("a", 0, M.U(8))]))
         elif tw == "same_id_other_protocol":
